@@ -83,6 +83,9 @@ func vfC10Pack(id uint16, name string) []byte {
 	m.SetQuestion(name, dns.TypeTXT)
 	m.Id = id
 	m.SetEdns0(4096, false)
+	if ck := vfC10Cookie(name); ck != "" {
+		m.IsEdns0().Option = append(m.IsEdns0().Option, &dns.EDNS0_COOKIE{Code: dns.EDNS0COOKIE, Cookie: ck})
+	}
 	b, _ := m.Pack()
 	return b
 }
@@ -100,6 +103,7 @@ func vfC10EncRun(t *testing.T, dir string, p vfC10EncParams) (violation string, 
 	cfg := vfBaseConfig(dir)
 	cfg.RateLimit, cfg.ClientRateLimit = 0, 0
 	cfg.BindTLS, cfg.BindDOQ = "127.0.0.1:0", "127.0.0.1:0"
+	cfg.CookieSecret = "6c6f6f6b61686172646c6f6f6b6168617264"
 	cfg.TLSCertificate, cfg.TLSPrivateKey = cert, key
 	stub := &vfC10Stub{}
 	s, done := vfBuildServerWith(cfg, stub)
